@@ -261,6 +261,20 @@ func randProg(r *rand.Rand) sysProg {
 	}
 	out.Body.Emit = randWhen(r)
 	out.Body.SkipEmpty = r.Intn(2) == 0
+	// a second block-filtered mapper on the same index (the two filters often share a key), with its own initial block
+	if hasIdx && r.Intn(2) == 0 {
+		f2 := sysMod{Name: "m_f2", Kind: "map", Init: []uint64{0, 3, 4, 7, 12}[r.Intn(5)], Inputs: []ainput{{K: "source", V: blockType}}, Filter: []any{}}
+		f2.Body = body0("map")
+		f2.Body.Terms = []vterm{{T: "num", C: 3}, {T: "const", C: 1}}
+		f2.Query = []string{"even", "even", "t3", "'even'", "(even)"}[r.Intn(5)]
+		if e, err := sqe.Parse(context.Background(), f2.Query); err == nil {
+			f2.Filter = []any{"idx", astJSON(e)}
+			p = append(p, f2)
+			posf := len(out.Inputs)
+			out.Inputs = append(out.Inputs, ainput{K: "map", V: "m_f2"})
+			out.Body.Terms = append(out.Body.Terms, vterm{T: "in", I: posf, C: 100})
+		}
+	}
 	if hasIdx && r.Intn(2) == 0 {
 		out.Query = []string{"even", "even || t3", "t3 even", "(rare || even) t3", "rare"}[r.Intn(5)]
 		if e, err := sqe.Parse(context.Background(), out.Query); err == nil {
